@@ -412,6 +412,49 @@ def _bookkeeping(ctx):
                 graph, node, lambda e, v=v: K.truth_edge(nz, e, v, True))
         ctx.ob('C08.6', fr, node, ok,
                'only instances found on that server are marked')
+    # the mark is consumed with the placement it was set for: whatever
+    # un-places an instance also clears its mark, so a later freeze of
+    # another server does not act on a stale request
+    unplacing = 0
+    for cls in index.module(K.SCHED).classes.values():
+        for func in cls.live_methods():
+            ugraph = None
+            for sub in K.walk_no_nested(func.node):
+                if not (isinstance(sub, ast.Assign) and
+                        isinstance(sub.value, ast.Constant) and
+                        sub.value.value is None and any(
+                            isinstance(t, ast.Attribute) and
+                            t.attr == 'server' and
+                            isinstance(t.value, ast.Name) and
+                            t.value.id != 'self' for t in sub.targets)):
+                    continue
+                ugraph = ugraph or ctx.cfg(func)
+                site = [n for n in ugraph.nodes if n.ast is sub]
+                if not site:
+                    continue
+                unplacing += 1
+                v = [t.value.id for t in sub.targets
+                     if isinstance(t, ast.Attribute)][0]
+
+                def clears(node, v=v):
+                    return any(
+                        N.txt(t) == '%s.unschedule' % v and
+                        isinstance(val, ast.Constant) and
+                        val.value is False
+                        for t, val, _k in K.assigns_attr(node))
+                before = K.guarded_by(ugraph, site[0],
+                                      lambda e: clears(e.src) and
+                                      e.kind != 'exc')
+                after = K.find_path(site[0], [ugraph.exit],
+                                    cut_node=clears, follow_exc=False)
+                ctx.ob('C08.6', func, site[0], before or after is None,
+                       'un-placing an instance clears its unschedule mark '
+                       'on every path (%s.unschedule = False)' % v,
+                       path=K.describe(after) if after and not before
+                       else None,
+                       construct='mark consumed with ' + site[0].text(30))
+    ctx.require(unplacing >= 1, 'un-placement (<v>.server = None) in the '
+                                'scheduler')
     sets = K.nodes_calling(graph, lambda c: K.is_meth(c, 'set_state'))
     ok = bool(sets) and all('State.frozen' in N.txt(c.args[0])
                             for _n, c in sets)
